@@ -96,6 +96,8 @@ def history_package(rng, gated: set) -> dict:
         "class SubOne(_PrivMid):\n    at1: Literal[5] | None = None\n\n    def own1(self, z: Literal[9] | None = None) -> None: ...\n\n\n"
         "class SubTwo(_PrivMid):\n    at2: Literal['v'] | None = None\n\n\n"
         "class SubThree(_PrivBase):\n    def __init__(self, c: Literal[2] | None = None, *rest: str) -> None:\n        self.inst: Literal[4] | None = c\n\n\n"
+        "class NamedX:\n    def name(self) -> str: ...\n\n\nclass SizedX:\n    def size(self) -> int: ...\n\n\n"
+        "class BothThenPrivate(NamedX, SizedX, _PrivBase):\n    pass\n\n\nclass PrivateThenBoth(_PrivBase, NamedX, SizedX):\n    pass\n\n\nclass OneThenPrivate(NamedX, _PrivMid):\n    pass\n\n\n"
         "class Renamed:\n    def method(self, a: Literal[11] | None) -> 'Renamed': ...\n\n\n"
         "def helper_fn(a: Literal['h'] | None = None, *args: tuple[int, str]) -> Literal['r'] | None: ...\n\n\n"
         "def uses_alias(x: SubOne, y: SubTwo) -> SubThree: ...\n"
@@ -163,7 +165,8 @@ def inherited_consistency(ss: StubSet, chk: Check) -> list[Viol]:
     seen: dict = {}
     for rel, m, d in ss.all_decls():
         if d.kind == "fun" and d.owner is not None and d.pyname.startswith("inherited_"):
-            sig = (tuple((p.pyname, p.type.render() if p.type else None, p.default) for p in d.params or []), tuple((r.name, r.type.render() if r.type else None) for r in d.results))
+            # (the comment lines in front of it - documentation, TODO remarks - belong to the rendering)
+            sig = (tuple((p.pyname, p.type.render() if p.type else None, p.default) for p in d.params or []), tuple((r.name, r.type.render() if r.type else None) for r in d.results), tuple(t for _k, t, _l in d.comments))
             key = d.pyname
             if key in seen and seen[key][0] != sig:
                 viols.append(Viol("inherited-method-rendered-differently", "subclasses", {"method": key, "first": {"in": seen[key][1], "sig": repr(seen[key][0])[:400]}, "second": {"in": d.owner.pyname, "sig": repr(sig)[:400]}}))
